@@ -180,25 +180,47 @@ def c13(tier):
 
 def directive_tree_mc(c, tier):
     """MC of the pass iterator (DirectiveTree.tla) and replay of every enumerated sequence into the real parser."""
-    r = c.mc("MC_DirectiveTree", Q(tier, "MC_DirectiveTree.cfg", "MC_DirectiveTree_8.cfg"), workers=8, timeout=3000)
     c.mc("MC_DirectiveTree", "MC_DirectiveTree_bug.cfg", expect_violation=True, workers=4, timeout=600)
-    beh = [p for t, p in r["replay"]]
-    bf = os.path.join(WORK, f"{c.prop}_passes.beh.ndjson")
-    mf = os.path.join(WORK, f"{c.prop}_passes.mismatch.ndjson")
-    write_ndjson(bf, beh)
-    rr = run([VH, "replay", "passes", bf, mf], timeout=1800)
-    st = json.loads(rr.stdout.strip().splitlines()[-1])
-    c.extra["directive_sequences_replayed"] = st["replayed"]
-    c.traces_validated += st["replayed"]
-    if beh:
-        c.samples.append({"directive_tree_behaviour": beh[len(beh) // 2]})
-    for m in read_ndjson(mf)[:20]:
-        # fidelity of the pass model (R1): a different but still complete and linear pass selection is not a violation;
-        # the property clauses are checked on the real passes: cover (C14) and bound (C04) - see the monitors
-        c.drift.append({"module": "DirectiveTree", "text": m["text"], "spec": m["spec"], "impl": m["impl"]})
-    if st["mismatches"]:
-        c.extra["model_drift_DirectiveTree"] = st["mismatches"]
-        c.notes.append("MODEL-DRIFT DirectiveTree: the real pass iterator differs from the model on %d sequences" % st["mismatches"])
+    # every short sequence, and the scaled families (one section with up to 46 alternatives, ladders, nests, ...)
+    for cfgname in [Q(tier, "MC_DirectiveTree.cfg", "MC_DirectiveTree_8.cfg"), "MC_DirectiveTree_long.cfg"]:
+        r = c.mc("MC_DirectiveTree", cfgname, workers=8, timeout=3000)
+        beh = [p for t, p in r["replay"]]
+        bf, mf = os.path.join(WORK, f"{c.prop}_{cfgname}.beh.ndjson"), os.path.join(WORK, f"{c.prop}_{cfgname}.mismatch.ndjson")
+        write_ndjson(bf, beh)
+        rr = run([VH, "replay", "passes", bf, mf], timeout=3000)
+        st = json.loads(rr.stdout.strip().splitlines()[-1])
+        c.extra["pass_behaviours_replayed"] = c.extra.get("pass_behaviours_replayed", 0) + st["replayed"]
+        c.traces_validated += st["replayed"]
+        if beh and cfgname != "MC_DirectiveTree_long.cfg":
+            c.samples.append({"directive_behaviour": beh[len(beh) // 2]})
+        for m in read_ndjson(mf):
+            # fidelity of the pass model (R1): a different but still complete, increasing and linear pass selection is not
+            # a violation; the invariants of MC_DirectiveTree (Cover, Increasing, OnlyPlain, PassBound) decide
+            toks, impl = m["toks"], m["impl"]
+            bad = None
+            if isinstance(impl, dict):
+                bad = ("panic", impl.get("panic"))
+            else:
+                plain = {i + 1 for i, t in enumerate(toks) if t == "p"}
+                seen = set()
+                for ps in impl:
+                    if any(a >= b for a, b in zip(ps, ps[1:])):
+                        bad = ("increasing", f"pass {ps}")
+                    if not set(ps) <= plain:
+                        bad = ("only_plain", f"pass {ps} visits a directive")
+                    seen |= set(ps)
+                if plain - seen:
+                    bad = ("cover", f"positions {sorted(plain - seen)[:8]} are visited by no pass ({len(impl)} passes)")
+                if len(impl) > len(toks):
+                    bad = ("pass_bound", f"{len(impl)} passes for {len(toks)} tokens")
+            if bad and bad[0] in ("cover", "increasing", "only_plain") and c.prop == "C14" or bad and bad[0] in ("pass_bound", "panic") and c.prop == "C04":
+                c.add_violation({"prop": c.prop, "clause": "passes_" + bad[0], "detail": f"directive sequence of {len(toks)} classes {toks[:12]}...: {bad[1]}",
+                                 "case": {"label": "MC_DirectiveTree", "text": m.get("text")}, "confirmed_by_tlc": True})
+            elif len(c.drift) < 5:
+                c.drift.append({"module": "DirectiveTree", "text": m["text"][:300], "spec": m["spec"], "impl": m["impl"]})
+        if st["mismatches"]:
+            c.extra["model_drift_DirectiveTree"] = c.extra.get("model_drift_DirectiveTree", 0) + st["mismatches"]
+            c.notes.append("MODEL-DRIFT DirectiveTree (%s): the real pass iterator differs from the model on %d sequences" % (cfgname, st["mismatches"]))
 
 
 def c04(tier):
@@ -222,7 +244,8 @@ def c04(tier):
         tasks += walk_tasks(Q(tier, 20000, 300000), "six")
         tasks += char_tasks(Q(tier, 60000, 1000000), "six")
         tasks += seed_tasks("wide" if tier == "thorough" else "six")
-        tasks += split_tasks("scaled", {"max_k": Q(tier, 30, 60)}, Q(tier, 30, 60) * 10, [], "six", chunks=16)
+        tasks += split_tasks("scaled", {"max_k": Q(tier, 30, 60)}, Q(tier, 30, 60) * 12, [], "six", chunks=16)
+        tasks += texts_tasks(dirblock_programs(c, tier), "six", chunks=32, cfg_mode="rotate")
         c.explore(tasks, f"soup_{label}", props, vh=vh, timeout_ms=Q(tier, 2000, 10000), sample_cap=Q(tier, 60, 300))
     c.exhaustive = True
     return c.finish(
@@ -295,6 +318,7 @@ def c08(tier):
     c = Check("C08", tier, "model_checking")
     recon_mc_and_replay(c, tier, False)
     tasks = basic_corpus(tier) + program_tasks(tier, "six", [REGIONS2, REGIONS3, COMMENTS], cfg_mode="rotate", sample_every=Q(tier, 499, 4999))
+    tasks += texts_tasks(dirblock_programs(c, tier), "six", chunks=32, cfg_mode="rotate", sample_every=Q(tier, 997, 9973))
     c.explore(tasks, "corpus", ["C08"], sample_cap=Q(tier, 250, 1500))
     return c.finish(
         rule="as C01, plus generated programs with one or two verbatim regions (also inside one statement) and blank-line runs in the middle of statements; the whitespace predicates of Props.tla (WhitespaceViolations) are evaluated on the final token table of every call; the end-of-file clause on well-formed inputs (seeds) only")
@@ -304,9 +328,15 @@ def c14(tier):
     build(("release",))
     c = Check("C14", tier, "model_checking")
     directive_tree_mc(c, tier)
-    c.explore(basic_corpus(tier, cfgs_soup="default"), "corpus", ["C14"], sample_cap=Q(tier, 250, 1500))
+    tasks = basic_corpus(tier, cfgs_soup="default")
+    tasks += split_tasks("scaled", {"max_k": Q(tier, 40, 80)}, Q(tier, 40, 80) * 12, [], "default", chunks=16, sample_every=Q(tier, 97, 499))
+    tasks += program_tasks(tier, "default", [PLAIN, COMMENTS, DIRECTIVES, MIXED, REGIONS], sample_every=Q(tier, 499, 4999))
+    tasks += texts_tasks(dirblock_programs(c, tier), "default", chunks=32, sample_every=Q(tier, 997, 9973))
+    c.explore(tasks, "corpus", ["C14"], sample_cap=Q(tier, 250, 1500))
     return c.finish(
-        rule="as C01 (one configuration: parsing does not depend on it); C14_Violations of Props.tla on the public parser's result; parent / Eof clauses on well-formed inputs (seeds)")
+        rule="MC_DirectiveTree: the pass iterator over every sequence of <= 6 (thorough 8) token classes and over scaled families (one section with up to 46 alternatives, ladders, nests, side-by-side and unclosed sections): TLC checks Cover / Increasing / OnlyPlain / PassBound / termination, every behaviour is replayed through the real parser and the real passes must satisfy the same invariants. "
+             "DirBlocks: every routine body of <= 7 (11 with single-item branches) items whose compound statements are split over conditional sections and which is well-formed under every valuation of the symbols - including those on which a pass of the formatter sees the program of NO valuation. "
+             "As C01 (one configuration: parsing does not depend on it): C14_Violations of Props.tla on the public parser's result for soup, truncated / spliced seeds, walks, scaled shapes (one section with up to 160 alternatives); parent / end-of-file clauses on well-formed inputs (seeds, programs derived from Grammar.tla in five layouts, DirBlocks bodies); a line holding the end-of-file token counts as an end-of-file line")
 
 
 # =====================================================================================================  C03 / C09 / C10 / C11 / C15
@@ -324,7 +354,8 @@ def wf_corpus(tier, cfgs, sample_q=23, sample_t=211, **kw):
 def c03(tier):
     build(("release",))
     c = Check("C03", tier, "exploration")
-    c.explore(wf_corpus(tier, Q(tier, "six", "wide")), "wf", ["C03"], sample_cap=Q(tier, 150, 800))
+    tasks = wf_corpus(tier, Q(tier, "six", "wide")) + texts_tasks(dirblock_programs(c, tier), "six", chunks=32, cfg_mode="rotate", sample_every=Q(tier, 997, 9973))
+    c.explore(tasks, "wf", ["C03"], sample_cap=Q(tier, 150, 800))
     # the command-line form of the property: check mode accepts what files mode wrote; a second run rewrites nothing
     import cli, random
     build(("cli",))
@@ -458,6 +489,39 @@ def gen_programs(tier, which=("file", "stmts", "types", "routine")):
     _progs[key] = (path, len(progs))
     log(f"[gen] {len(progs)} distinct programs derived by TLC")
     return _progs[key]
+
+
+DIRBLOCK_TEXT = {"stmt": "Foo;", "begin": "begin", "while": "while X do begin", "repeat": "repeat", "try": "try", "finally": "finally", "end": "end;", "until": "until Y;",
+                 "else": "{$else}", "endif": "{$endif}"}
+_dirblocks = {}
+
+
+def dirblock_programs(c, tier):
+    """DirBlocks.tla: routine bodies whose compound statements are split over conditional sections, well-formed under every
+    valuation of the symbols (TLC, exhaustive within the bounds); returns the path of a texts file (wf = true)."""
+    if tier in _dirblocks:
+        return _dirblocks[tier]
+    rows = []
+    for cfgname in ["DirBlocks.cfg", "DirBlocks_split.cfg"] + Q(tier, [], ["DirBlocks_two.cfg"]):
+        r = c.mc("DirBlocks", cfgname, workers=8, timeout=3000) if c else tlc("DirBlocks", cfgname, workers=8, timeout=3000)
+        for t, p in r["replay"]:
+            words = []
+            for it in p["items"]:
+                k = it["k"]
+                words.append("{$%s %s}" % (k, it["s"]) if k in ("ifdef", "ifndef") else DIRBLOCK_TEXT[k])
+            for layout in (0, 1):
+                sep = "\n" if layout == 0 else " "
+                text = "procedure P;" + sep + "begin" + sep + sep.join(words) + sep + "end;\n"
+                rows.append({"text": text, "wf": True, "label": f"dirblocks:{cfgname}:{'unreal' if p['unreal'] else 'real'}:{layout}"})
+    if not rows:
+        raise ToolError("DirBlocks: no bodies printed")
+    import random
+    random.Random(SEED).shuffle(rows)
+    path = os.path.join(WORK, f"dirblocks_{tier}.ndjson")
+    write_ndjson(path, rows)
+    _dirblocks[tier] = path
+    log(f"[dirblocks] {len(rows)} texts")
+    return path
 
 
 PLAIN = {"mode": 1}
@@ -611,7 +675,7 @@ def c12(tier):
             for (f, le, t, tw, w) in [(True, "lf", False, 2, 120), (True, "crlf", False, 4, 40), (False, "lf", False, 2, 120), (True, "lf", True, 2, 30), (False, "crlf", True, 2, 60)]]
     tasks = program_tasks(tier, cfgs, [PLAIN, MIXED, CRLFTABS], cfg_mode="rotate", sample_every=Q(tier, 499, 4999))
     tasks += seed_tasks(cfgs, sample_every=Q(tier, 97, 997))
-    tasks += split_tasks("scaled", {"max_k": Q(tier, 40, 80)}, Q(tier, 40, 80) * 10, [], cfgs, chunks=16, sample_every=Q(tier, 97, 499))
+    tasks += split_tasks("scaled", {"max_k": Q(tier, 40, 80)}, Q(tier, 40, 80) * 12, [], cfgs, chunks=16, sample_every=Q(tier, 97, 499))
     c.explore(tasks, "mlstrings", ["C12"], sample_cap=Q(tier, 80, 400))
     return c.finish(
         rule="multi-line literals in generated programs (3 and 5 quotes, several bodies and indentations, every expression position of the grammar) and in the seeds, under 5 configurations; per literal: value equal and re-indented like the opening quotes' line when it obeys the indentation rule and the option is on, byte-identical otherwise")
